@@ -97,6 +97,10 @@ def lean_imports_closure(module):
     return sorted(seen)
 
 
+TRANSIENT = re.compile(r"object file .* does not exist|failed to open|no such file or directory|SIGBUS|signal 7|"
+                       r"clang frontend command failed with exit code 135|exited with code 135", re.I)
+
+
 class Run:
     def __init__(self, prop, tier, seed, replay=None):
         self.prop, self.tier, self.seed, self.replay = prop, tier, seed, replay
@@ -141,13 +145,15 @@ class Run:
 
     # ------------------------------------------------------------------ Lean
     def lean_build(self, targets):
+        # transient failures of a build that shares lean/.lake with another running check (case-insensitive: lake prints
+        # "no such file or directory (error code: ...)", clang dies with exit code 135 = SIGBUS on a truncated Tables.c)
         cmd = ["lake", "build"] + list(targets)
         self.checker_cmds.append("cd lean && " + " ".join(cmd))
         rc, out, err = sh(cmd, cwd=LEAN, timeout=3000)
         for _ in range(3):
             # another check running in the same tree (workers, run_all next to a worker) may be rebuilding the shared
             # MJ.Gen.Tables at this moment: its object files vanish for a moment.  Not an error of the proofs: retry.
-            if rc == 0 or not re.search(r"object file .* does not exist|failed to open|No such file or directory|SIGBUS|signal 7", out + err):
+            if rc == 0 or not re.search(TRANSIENT, out + err):
                 break
             time.sleep(20)
             rc, out, err = sh(cmd, cwd=LEAN, timeout=3000)
@@ -180,7 +186,7 @@ class Run:
         self.checker_cmds.append("cd lean && " + " ".join(cmd))
         rc, out, err = sh(cmd, cwd=LEAN, timeout=3000)
         for _ in range(3):   # same transient as in lean_build: a concurrent rebuild of the shared MJ.Gen.Tables
-            if rc == 0 or not re.search(r"object file .* does not exist|failed to open|No such file or directory", out + err):
+            if rc == 0 or not re.search(TRANSIENT, out + err):
                 break
             time.sleep(20)
             self.lean_build([prop_module])
